@@ -32,15 +32,16 @@ PoolSeq == << L(1), L(12), L(2), L(3), L(5), L(7), L(8), L(9), L(11),           
               ControlledOf(L(2), 1), DaggerOf(L(3)), PowerOf(L(2), <<3, 1>>), L(14),            \* c-S  T^+  S^3  XX
               PowerOf(L(1), Half),                                                              \* X^(1/2): the K1 gate
               DaggerOf(ControlledOf(L(3), 1)), ControlledOf(L(1), 2), PowerOf(DaggerOf(L(4)), <<-2, 1>>), L(10),     \* (c-T)^+  cc-X  (SX^+)^-2  A1
-              ControlledOf(L(3), 1) >>                                                          \* c-T: the same wrapper, arity and (no) parameters as c-S
-PoolQuick == {1, 3, 5, 6, 7, 9, 10, 11, 12, 14, 19}
+              ControlledOf(L(3), 1),                                                            \* c-T: the same wrapper, arity and (no) parameters as c-S
+              Leaf(20, TRUE) >>                                                                 \* the parametric custom gate P(a) at a = 3 pi/2 (built at a = 0, where it is self-adjoint, then re-parametrised)
+PoolQuick == {1, 3, 5, 6, 7, 9, 10, 11, 12, 14, 19, 20}
 PoolAll == 1..Len(PoolSeq)
 
 \* ---- meaning of a step --------------------------------------------------------------------------------------
 RECURSIVE HasFrac(_), GSemR(_, _)
 HasFrac(x) == CASE x.k = "base" -> FALSE [] x.k = "pow" -> (~IsInt(x.e)) \/ HasFrac(Sub(x)) [] OTHER -> HasFrac(Sub(x))
 GSemR(x, row) ==
-  CASE x.k = "base" -> IF row # <<>> THEN GateAt(Base[x.g].name, row) ELSE IF x.n = 1 THEN gm.alt[x.g] ELSE gm.std[x.g]
+  CASE x.k = "base" -> IF row # <<>> THEN GateAt(IF Base[x.g].custom THEN "PHASE" ELSE Base[x.g].name, row) ELSE IF x.n = 1 THEN gm.alt[x.g] ELSE gm.std[x.g]
     [] x.k = "ctrl" -> LET s == GSemR(Sub(x), row) IN MBlockId(Len(s) * (2^x.n - 1), s)
     [] x.k = "dag"  -> MAdj(GSemR(Sub(x), row))
     [] x.k = "pow"  -> IF IsInt(x.e) THEN MPow(GSemR(Sub(x), row), x.e[1])
